@@ -321,6 +321,7 @@ def dw_op_br(obj, data):
 def xdata_call_indirect(obj,**kargs):
     addr = kargs['address']
     code = kargs['code']
+    addr += len(obj.bytes)
     off = 0
     n, sz = read_leb128(code,1,addr+off)
     obj.y = n
